@@ -8,10 +8,12 @@
 package verifsim
 
 import (
+	crand "crypto/rand"
 	"fmt"
 	"io"
 	"io/fs"
 	"iter"
+	mrand "math/rand"
 	"os"
 	"reflect"
 	"sort"
@@ -39,6 +41,10 @@ type Hooks struct {
 	Rename   func(oldName, newName string) error
 	// TempName returns a fresh file name for os.CreateTemp(dir, pattern).
 	TempName func(dir, pattern string) string
+	// Now replaces time.Now (and time.Since); Rand supplies the bits for math/rand and
+	// crypto/rand replacements.  os.Getpid is a constant under simulation.
+	Now  func() time.Time
+	Rand func() uint64
 	// RealPath serves the "real file" disk mode (used when the edited tree names *os.File
 	// explicitly, so that verifsim.File cannot stand in for it): it maps a file name to a
 	// path under the simulator's private directory, or returns an injected error.
@@ -488,7 +494,7 @@ func RemoveReal(name string) error {
 	if err != nil {
 		return err
 	}
-	if sim {
+	if sim && p != name {
 		return nil // the simulated disk has already dropped it
 	}
 	return os.Remove(p)
@@ -523,4 +529,139 @@ func CreateTempReal(dir, pattern string) (*os.File, error) {
 		return os.CreateTemp(p, pattern)
 	}
 	return os.CreateTemp(dir, pattern)
+}
+
+// ---------------------------------------------------------------- wall clock, pid, global PRNGs
+
+func Now() time.Time {
+	if h := H; h != nil && h.Now != nil {
+		return h.Now()
+	}
+	return time.Now()
+}
+
+func Since(t time.Time) time.Duration { return Now().Sub(t) }
+
+func Getpid() int {
+	if h := H; h != nil && h.Now != nil {
+		return 4242
+	}
+	return os.Getpid()
+}
+
+func bits() (uint64, bool) {
+	if h := H; h != nil && h.Rand != nil {
+		return h.Rand(), true
+	}
+	return 0, false
+}
+
+func RandInt() int {
+	if b, ok := bits(); ok {
+		return int(b >> 1)
+	}
+	return mrand.Int()
+}
+
+func RandIntn(n int) int {
+	if b, ok := bits(); ok && n > 0 {
+		return int(b % uint64(n))
+	}
+	return mrand.Intn(n)
+}
+
+func RandInt31() int32 {
+	if b, ok := bits(); ok {
+		return int32(b >> 33)
+	}
+	return mrand.Int31()
+}
+
+func RandInt31n(n int32) int32 {
+	if b, ok := bits(); ok && n > 0 {
+		return int32(b % uint64(n))
+	}
+	return mrand.Int31n(n)
+}
+
+func RandInt63() int64 {
+	if b, ok := bits(); ok {
+		return int64(b >> 1)
+	}
+	return mrand.Int63()
+}
+
+func RandInt63n(n int64) int64 {
+	if b, ok := bits(); ok && n > 0 {
+		return int64(b % uint64(n))
+	}
+	return mrand.Int63n(n)
+}
+
+func RandUint32() uint32 {
+	if b, ok := bits(); ok {
+		return uint32(b >> 32)
+	}
+	return mrand.Uint32()
+}
+
+func RandUint64() uint64 {
+	if b, ok := bits(); ok {
+		return b
+	}
+	return mrand.Uint64()
+}
+
+func RandFloat64() float64 {
+	if b, ok := bits(); ok {
+		return float64(b>>11) / (1 << 53)
+	}
+	return mrand.Float64()
+}
+
+func RandFloat32() float32 {
+	if b, ok := bits(); ok {
+		return float32(b>>40) / (1 << 24)
+	}
+	return mrand.Float32()
+}
+
+func RandPerm(n int) []int {
+	if _, ok := bits(); ok {
+		p := make([]int, n)
+		for i := range p {
+			p[i] = i
+		}
+		RandShuffle(n, func(i, j int) { p[i], p[j] = p[j], p[i] })
+		return p
+	}
+	return mrand.Perm(n)
+}
+
+func RandShuffle(n int, swap func(i, j int)) {
+	if _, ok := bits(); ok {
+		for i := n - 1; i > 0; i-- {
+			swap(i, RandIntn(i+1))
+		}
+		return
+	}
+	mrand.Shuffle(n, swap)
+}
+
+func RandSeed(seed int64) {
+	if _, ok := bits(); ok {
+		return
+	}
+	mrand.Seed(seed)
+}
+
+func CryptoRandRead(p []byte) (int, error) {
+	if _, ok := bits(); ok {
+		for i := range p {
+			b, _ := bits()
+			p[i] = byte(b)
+		}
+		return len(p), nil
+	}
+	return crand.Read(p)
 }
